@@ -143,6 +143,8 @@ def verify_function(prog, reg, c, labels=None, opts=None, timeout_ms=20000):
         if len(actual) == len(roles) and len(argnames) - len(roles) == prog.extracted[c.qual].get('n_outer_params', -1): alias = dict(zip(roles, actual))
         chk = c.opts.get('role_check')
         if alias and chk is not None and not chk(fn, alias): alias = {}          # the roles do not fit this code: the contract does not attach (undecided)
+    for r_, a_ in alias.items():           # the same roles name the block's loop state
+        if r_ != a_: sx.ROLE_ALIASES[r_] = a_; sx.ROLE_REV[a_] = r_
     cparams = {alias.get(k, k): v for k, v in c.params.items()}
     missing = [n for n in cparams if n not in argnames]
     if missing:
